@@ -14,7 +14,7 @@ class Misaligned(Exception):
     pass
 
 
-def code_distribution(k, p, nmax, conv=int, positional=False):
+def code_distribution(k, p, nmax, conv=int, positional=False, dup=False):
     """exact law of the real class after every arrival: enumerate its draws, merge equal contents"""
     pf = None if p is None else float(p)
     random.seed(0)
@@ -26,13 +26,19 @@ def code_distribution(k, p, nmax, conv=int, positional=False):
         new = {}
         for key, (st, w) in cur.items():
             def call(s, n=n):
-                x, y = GS.item(n)
+                x, y = GS.item_dup(n) if dup else GS.item(n)
                 decoy = GS.make("geometric", 50, True, pf)
                 decoy.update({"id": -n, "v": -1.0}, "decoy")
+                s.get_data(), len(s)            # a reader between the updates changes nothing
                 s.update(x, y)
                 return s
             for (pw, s2, script) in dist.enumerate_call(lambda st=st: copy.deepcopy(st), call, grid=GRID):
                 sx, sy = GS.project(s2)
+                if dup:
+                    # repeated feature vectors: every arrival has the same features, the stored arrivals are told apart
+                    # by the targets that came with them
+                    xs_, ys_ = s2.get_data()
+                    sx = [t - 100 for t in sy] if all(x_ == GS.item_dup(0)[0] for x_ in xs_) and len(xs_) == len(ys_) else [-1]
                 if sy != [100 + t for t in sx]:
                     raise Misaligned("after %d arrivals: instances %s, targets %s" % (n, sx, sy))
                 k2 = tuple(sx)
@@ -68,10 +74,13 @@ def run(tier, seed):
         import numpy as np
         variants = [(pq, int, False), (pq, [np.int64, np.int8, np.uint8, np.int32][pq.numerator % 4], True)] \
             + ([(None, int, False), (None, np.int16, True)] if pq == F(1, 2) else [])
-        for (pv, conv, positional) in variants:
-            where = "p=%s%s" % ("default" if pv is None else pv, " positional arguments, size as %s" % conv.__name__ if positional else "")
+        # ... and once on a stream of repeated feature vectors (arrivals that differ in their target only)
+        variants = [v + (False,) for v in variants] + [(pq, int, False, True)]
+        for (pv, conv, positional, dup) in variants:
+            where = "p=%s%s%s" % ("default" if pv is None else pv, " positional arguments, size as %s" % conv.__name__ if positional else "",
+                                  " repeated feature vectors" if dup else "")
             try:
-                cd = code_distribution(2, pv, 6, conv, positional)
+                cd = code_distribution(2, pv, 6, conv, positional, dup)
             except Misaligned as e:
                 ctx.violation("dist.content_is_observed_pairs", where, "a reachable content of GeometricReservoirStorage(size=2, "
                               "store_targets=True) is not a set of observed (instance, target) pairs: %s" % e, {"k": 2, "p": str(pv)})
@@ -86,7 +95,7 @@ def run(tier, seed):
                 if cd[n] != w:
                     diff = {str(kk): (str(cd[n].get(kk, 0)), str(w.get(kk, 0))) for kk in set(cd[n]) | set(w)
                             if cd[n].get(kk, 0) != w.get(kk, 0)}
-                    ctx.violation("dist.geometric_law", "p=%s%s" % ("default" if pv is None else pv, " positional arguments, size as %s" % conv.__name__ if positional else ""),
+                    ctx.violation("dist.geometric_law", where,
                                   "after %d arrivals the exact distribution of GeometricReservoirStorage(size=2, p=%s) "
                                   "differs from the specification's (content: (code, spec)): %s" % (n, pv, dict(list(diff.items())[:6])),
                                   {"k": 2, "p": str(pv), "n": n})
